@@ -1,13 +1,140 @@
-"""Replay: after the verifier reports a failed obligation, try to exhibit a failing input on
-the real code (binary built from /repo's working tree). Recipes are per property."""
-import json, os
+"""Replay: after the verifier reports a failed obligation, try to exhibit a failing input on the real
+code.  Verus gives no counterexample, so each property carries *recipes*: small crafted inputs derived
+from the shape of the contract (ties, bounds equal to an entry time, ...) with an oracle taken from
+the property statement.  They are run against the `s4` binary built from /repo's working tree.
+A recipe that fails is attached to the replay file as the failing input; if none fails the VIOLATION
+line ends with `no-failing-input-found`.  Recipes never decide a property: the verifier does.
+"""
+import json
+import os
+import re
+import subprocess
+import sys
+
+ANSI = re.compile(rb'\x1b\[[0-9;]*m')
+
+
+def build_s4(repo, log):
+    """cargo build (debug, offline) of the working tree; returns path to the binary or None."""
+    env = dict(os.environ, CARGO_NET_OFFLINE='true')
+    try:
+        p = subprocess.run(['cargo', 'build', '--offline', '--bin', 's4'], cwd=repo, env=env, capture_output=True, text=True, timeout=1800)
+    except Exception as e:  # noqa
+        log.append('cargo build failed to run: %s' % e)
+        return None
+    if p.returncode != 0:
+        log.append('cargo build failed: ' + p.stderr[-1500:])
+        return None
+    b = os.path.join(repo, 'target', 'debug', 's4')
+    return b if os.path.exists(b) else None
+
+
+def run_s4(s4, args, cwd=None, timeout=120):
+    p = subprocess.run([s4] + args, cwd=cwd, capture_output=True, timeout=timeout)
+    return p.returncode, p.stdout, p.stderr
+
+
+# ----------------------------------------------------------------------------------------------
+# recipes: each returns dict(name, cmd, expected, observed, failed: bool, input: path)
+
+def r_c08_equal_times(s4, repo, scratch):
+    """two records with the same time value must both be printed, in file order"""
+    src = os.path.join(repo, 'logs/programs/utmp/host-entry6.wtmp')
+    d = bytearray(open(src, 'rb').read())
+    esz = 384
+    n = len(d) // esz
+    d[esz + 340:esz + 348] = d[340:348]           # record 1 gets record 0's time value
+    inp = os.path.join(scratch, 'c08_equal_times.wtmp')
+    open(inp, 'wb').write(d)
+    rc, out, err = run_s4(s4, ['--color', 'never', inp])
+    lines = out.split(b'\n')
+    lines = [l for l in lines if b'ut_type' in l]
+    pids = [re.search(rb"ut_pid (\d+)", l).group(1).decode() if re.search(rb"ut_pid (\d+)", l) else '?' for l in lines]
+    return {'name': 'C08.equal_times', 'input': inp, 'how_made': 'host-entry6.wtmp with bytes 340..348 of record 1 overwritten by those of record 0',
+            'cmd': '%s --color never %s' % (s4, inp), 'expected': '%d records printed (one per non-null record)' % n,
+            'observed': '%d lines; ut_pid sequence %s' % (len(lines), pids), 'failed': len(lines) != n}
+
+
+def r_c08_order(s4, repo, scratch):
+    """records are printed in time order even when stored out of order"""
+    src = os.path.join(repo, 'logs/programs/utmp/host-entry6.wtmp')
+    d = bytearray(open(src, 'rb').read())
+    esz = 384
+    recs = [d[i * esz:(i + 1) * esz] for i in range(len(d) // esz)]
+    rev = b''.join(reversed(recs))
+    inp = os.path.join(scratch, 'c08_reversed.wtmp')
+    open(inp, 'wb').write(rev)
+    rc1, out1, _ = run_s4(s4, ['--color', 'never', src])
+    rc2, out2, _ = run_s4(s4, ['--color', 'never', inp])
+    return {'name': 'C08.reversed_storage', 'input': inp, 'how_made': 'host-entry6.wtmp with its six records stored in reverse',
+            'cmd': '%s --color never %s' % (s4, inp), 'expected': 'same output as the original file (time order)',
+            'observed': 'identical' if out1 == out2 else 'differs: %r' % out2[:300], 'failed': out1 != out2 or not out1}
+
+
+RECIPES = {
+    'C08': [r_c08_equal_times, r_c08_order],
+}
 
 
 def find_failing_input(prop, P, violations, repo, scratch):
-    return {'failing_input_found': False, 'note': 'Verus gives no counterexample; no replay recipe produced a failing input'}
+    log = []
+    recipes = RECIPES.get(prop, [])
+    if not recipes:
+        return {'failing_input_found': False, 'note': 'Verus gives no counterexample and no replay recipe exists for this property'}
+    s4 = build_s4(repo, log)
+    if not s4:
+        return {'failing_input_found': False, 'note': 'could not build s4 from the working tree', 'log': log}
+    keep = os.path.join(os.path.dirname(os.path.dirname(os.path.abspath(__file__))), 'replay', 'out', 'inputs')
+    os.makedirs(keep, exist_ok=True)
+    results = []
+    for r in recipes:
+        try:
+            res = r(s4, repo, scratch)
+        except Exception as e:  # noqa
+            res = {'name': r.__name__, 'failed': False, 'error': repr(e)}
+        if res.get('failed') and res.get('input') and os.path.exists(res['input']):
+            dst = os.path.join(keep, os.path.basename(res['input']))
+            try:
+                import shutil
+                shutil.copy(res['input'], dst)
+                res['cmd'] = res['cmd'].replace(res['input'], dst)
+                res['input'] = dst
+            except OSError:
+                pass
+        results.append(res)
+    failing = [r for r in results if r.get('failed')]
+    return {'failing_input_found': bool(failing), 'failing': failing, 'all_recipes': results, 'log': log}
 
 
 def run_replay_file(path, repo):
     d = json.load(open(path))
-    print(json.dumps(d, indent=1)[:4000])
-    return 0
+    print('property: %s' % d['property'])
+    for v in d.get('failed_obligations', []):
+        print('failed obligation: %s' % v['obligation'])
+    rp = d.get('replay') or {}
+    if not rp.get('failing_input_found'):
+        print('no failing input recorded (no-failing-input-found); verifier output:')
+        for v in d.get('failed_obligations', [])[:3]:
+            print(v.get('verifier_output', ''))
+        return 1
+    log = []
+    s4 = build_s4(repo, log)
+    if not s4:
+        print('cannot build s4: %s' % log)
+        return 2
+    rc = 0
+    for f in rp['failing']:
+        print('replaying %s: %s' % (f['name'], f['cmd']))
+        fn = [r for rs in RECIPES.values() for r in rs if ('.' in f['name'] and r.__name__ == 'r_' + f['name'].lower().replace('.', '_'))]
+        import tempfile
+        sc = tempfile.mkdtemp(prefix='s4replay.', dir='/var/tmp')
+        try:
+            if fn:
+                res = fn[0](s4, repo, sc)
+                print('  expected: %s\n  observed: %s\n  -> %s' % (res['expected'], res['observed'], 'FAILS (violation reproduced)' if res['failed'] else 'passes'))
+                if res['failed']:
+                    rc = 1
+        finally:
+            import shutil
+            shutil.rmtree(sc, ignore_errors=True)
+    return rc
